@@ -94,6 +94,7 @@ type c17Case struct {
 	Doc      dDoc     `json:"doc"`
 	State    sysState `json:"state"`
 	UpAtNS   int64    `json:"up_at_ns"` // dial attempts succeed from this instant on; -1 never
+	UpStepNS int64    `json:"up_step_ns"` // the i-th configured interface comes up this much later than the previous one
 	Links    []int64  `json:"link_events_ns"`
 	Probes   []int64  `json:"probes_ns"`
 	FwdFlips []int64  `json:"forwarding_flips_ns"`
@@ -186,8 +187,12 @@ func c17Prop(t *testing.T, k *verifkit.Kit) func(c c17Case) error {
 			reg := prometheus.NewPedanticRegistry()
 			NewMetrics(metricslite.NewPrometheus(reg), "verif", time.Time{}, simState{w}, cfg.Interfaces)
 			h := crhttp.NewHandler(log.New(io.Discard, "", 0), simState{w}, *cfg, promhttp.HandlerFor(reg, promhttp.HandlerOpts{}))
-			w.dialResult = func(int) error {
-				if c.UpAtNS < 0 || w.now() < time.Duration(c.UpAtNS) {
+			ifIndex := map[string]int{}
+			for i, ifi := range cfg.Interfaces {
+				ifIndex[ifi.Name] = i
+			}
+			w.dialResultFor = func(iface string, _ int) error {
+				if c.UpAtNS < 0 || w.now() < time.Duration(c.UpAtNS+int64(ifIndex[iface])*c.UpStepNS) {
 					return vkErrOf("notready")
 				}
 				return nil
@@ -716,6 +721,9 @@ func c17Gen(t *rapid.T) c17Case {
 		c.UpAtNS = 0
 	default:
 		c.UpAtNS = rapid.Int64Range(0, 8*s).Draw(t, "upat")
+	}
+	if rapid.Bool().Draw(t, "staggered") {
+		c.UpStepNS = rapid.SampledFrom([]int64{1, s, 3 * s}).Draw(t, "upstep")
 	}
 	for i, n := 0, rapid.IntRange(0, 2).Draw(t, "nlinks"); i < n; i++ {
 		c.Links = append(c.Links, rapid.Int64Range(0, 12*s).Draw(t, "link"))
